@@ -312,13 +312,196 @@ def specs(prop='C17'):
         else:
             ctx.prove(f'{pre}.success.returns_mapping[{label}]', isinstance(r, dict))
 
+    # ---------------------------------------------------------------------------------------------------------------
+    def run_quantifier_tags(ctx, case, loc, pre, label):
+        """_match__inside_list_quantifier, WHAT is collected: with the tag collections as real lists, concrete bounds and a
+        concrete target length, for every outcome of every element / rest-of-list attempt (forked):
+            success   the tag list handed to the merge is   [tags of the iterations that are part of the final match, in
+                      target order]  (wrapped as one {pat_tag: [FSTMatch ...]} entry when the quantifier is tagged),
+                      then the static tags exactly once, then the tags of the rest of the list; the number of iterations
+                      lies within the bounds; iteration k was matched against target element entry+k; the cursor stands
+                      behind the last accepted iteration (the rest stub does not move it)
+            failure   None, cursor at its entry position, nothing merged
+        Iterations given up while a greedy quantifier backs off, or never accepted, contribute nothing."""
+        it = Interp({})
+        it.globals.update(globals_(it))
+        TLn, T0 = case['tl'], case['t0']
+        elems = [SObj(f'tgt{i}', {}) for i in range(TLn)]
+        tgt = SObj('tgt_iter', {}, seq=elems, len=TLn, idx=T0)
+        for m_ in ('next', 'at_end'):
+            node = frontend.locate(f'match:_MatchList.{m_}').node
+            tgt._set(m_, (lambda node=node, m_=m_: (lambda *a: it.call(IFunc(it, node, None, m_), (tgt, *a))))(), count=False)
+        pat_it = SObj('pat_iter', {}, idx=0, len=0, seq=[])
+        stack, merged, discarded = [], [], []
+
+        def new_tagss():
+            l = []
+            stack.append(l)
+            return l
+
+        def pop_merge():
+            merged.append(list(stack.pop()))
+            return {'merged': len(merged)}
+
+        def discard():
+            discarded.append(stack.pop())
+            return None
+        st = SObj('mstate', {}, is_FST=False)
+        st._set('new_tagss', new_tagss, count=False)
+        st._set('pop_merge_tagss', pop_merge, count=False)
+        st._set('discard_tagss', discard, count=False)
+        static = {'s': 1} if case['static'] else None
+        q_pat = SObj('q_pat', {}, **{'__class__': SObj('cls', {})})
+        pat = SObj('MQ', {}, pat=q_pat, min=case['qmin'], max=case['qmax'], pat_tag=case['tag'], greedy=case['greedy'],
+                   static_tags=static)
+        attempts = []
+
+        def match_func(p, t, mstate):
+            k = next(i for i, e in enumerate(elems) if e is t)
+            if choose(f'elem{len(attempts)}', 2):
+                m = {'x': k, 'n': len(attempts)}
+                attempts.append((k, m))
+                return m
+            attempts.append((k, None))
+            return None
+        rest = []
+
+        def inside_list(mstate, p_it, t_it, allow_partial=False):
+            if choose(f'rest{len(rest)}', 2):
+                m = {'rest': len(rest)}
+                rest.append((t_it._get('idx'), m))
+                return m
+            rest.append((t_it._get('idx'), None))
+            return None
+
+        class MatchFuncs:
+            def get(self, cls, default=None):
+                return match_func
+        it.globals.update({'_match__inside_list': inside_list, '_MATCH_FUNCS': MatchFuncs(),
+                           '_match_default': SObj('_match_default', {}), 'FSTMatch': lambda *a: ('FSTMatch',) + a,
+                           'FSTView': SObj('FSTView', {}), 'MatchError': IndexError, 'bool': bool})
+        it.globals['isinstance'] = lambda o, t: False
+        f = IFunc(it, loc.node, None, '_match__inside_list_quantifier')
+        r = it.call(f, (st, pat_it, tgt, pat, False))
+        ctx.notes['outcome'] = 'return'
+        qmin, qmax = case['qmin'], case['qmax']
+        ctx.prove(f'{pre}.tag_stack_balanced[{label}]', not stack and len(merged) + len(discarded) == 1)
+        if r is None:
+            ctx.prove(f'{pre}.fail.nothing_merged_cursor_rewound[{label}]', not merged and tgt._get('idx') == T0)
+            # completeness: a failure is only possible if no admissible count had a successful rest attempt
+            ctx.prove(f'{pre}.fail.no_rest_attempt_succeeded[{label}]', all(m is None for _, m in rest))
+            return
+        got = merged[0] if merged else None
+        ok_rest = bool(rest) and rest[-1][1] is not None and got is not None and len(got) >= 1 and got[-1] is rest[-1][1]
+        ctx.prove(f'{pre}.success.rest_tags_last[{label}]', ok_rest)
+        count = (rest[-1][0] - T0) if rest else -1
+        ctx.prove(f'{pre}.success.count_within_bounds[{label}]', qmin <= count and (qmax is None or count <= qmax) and
+                  tgt._get('idx') == T0 + count)
+        # the iterations that are part of the final match: the LAST successful attempt on each target T0 .. T0+count-1
+        final = []
+        for k in range(T0, T0 + max(count, 0)):
+            ms = [m for kk, m in attempts if kk == k and m is not None]
+            final.append(ms[-1] if ms else None)
+        body = got[:-1] if got else []
+        want = []
+        if case['tag']:
+            if not (body and isinstance(body[0], dict) and list(body[0]) == [case['tag']]):
+                ctx.prove(f'{pre}.success.iterations_collected[{label}]', False, info=f'got {body}')
+                return
+            ent = body[0][case['tag']]
+            good = len(ent) == len(final) and all(isinstance(e, tuple) and e[0] == 'FSTMatch' and e[1] is q_pat and
+                                                  e[2] is elems[T0 + i] and e[3] is final[i] for i, e in enumerate(ent))
+            tail = body[1:]
+        else:
+            good = len(body) >= len(final) and all(a is b for a, b in zip(body[:len(final)], final))
+            tail = body[len(final):]
+        ctx.prove(f'{pre}.success.iterations_collected[{label}]', good and None not in final,
+                  info=f'got {body} want iterations {final}')
+        ctx.prove(f'{pre}.success.static_tags_exactly_once[{label}]', tail == ([static] if static else []) and
+                  (not static or tail[0] is static), info=f'after the iterations: {tail}')
+
+    # ---------------------------------------------------------------------------------------------------------------
+    def run_maybe(ctx, case, loc, pre, label):
+        """MMAYBE._match ('p or absent'): the target counts as absent only when it IS None - a falsy value (0, '', [],
+        False) is a present value and must be matched against p; a present target is handed to p's match function
+        exactly once and rejected iff p rejects it; the tags are p's tags, then the pattern tag bound to the target (to []
+        for an absent one), then the static tags."""
+        it = Interp({})
+        node = SObj('node', {})
+        TARGETS = {'None': None, '0': 0, 'empty_str': '', 'empty_list': [], 'False': False, 'zero_float': 0.0, 'node': node,
+                   '5': 5, 'x': 'x', 'list1': [node]}
+        tgt = TARGETS[case['tgt']]
+        child = {'none': None, 'empty': {}, 'tags': {'c': 1}}[case['child']]
+        calls = []
+
+        def match_func(p, t, mstate):
+            calls.append((p, t))
+            return child
+
+        class MatchFuncs:
+            def get(self, cls, default=None):
+                return match_func
+        static = {'s': 1} if case['static'] else {}
+        q = SObj('p', {}, **{'__class__': SObj('cls', {})})
+        self = SObj('self', {}, pat=q, pat_tag=case['tag'], static_tags=static)
+        st = SObj('mstate', {}, is_FST=False)
+        it.globals.update({'_MATCH_FUNCS': MatchFuncs(), '_match_default': SObj('d', {}), 'AST': SObj('AST', {}),
+                           'MatchError': IndexError, 'dict': dict, 'getattr': lambda o, n, d=None: d})
+        it.globals['isinstance'] = lambda o, t: False
+        f = IFunc(it, loc.node, None, '_match')
+        r = it.call(f, (self, tgt, st))
+        ctx.notes['outcome'] = 'return'
+        if tgt is None:
+            ctx.prove(f'{pre}.absent.matches_without_consulting_p[{label}]', not calls and r is not None and
+                      dict(r) == ({case['tag']: [], **static} if case['tag'] else static))
+            return
+        ctx.prove(f'{pre}.present.p_consulted_once_with_the_target[{label}]', len(calls) == 1 and calls[0][0] is q and
+                  calls[0][1] is tgt, info='a falsy target is a present value')
+        if child is None:
+            ctx.prove(f'{pre}.present.rejected_iff_p_rejects[{label}]', r is None)
+            return
+        want = dict(child)
+        if case['tag']:
+            want[case['tag']] = tgt
+        want.update(static)
+        ctx.prove(f'{pre}.present.tags[{label}]', r is not None and dict(r) == want and
+                  (not case['tag'] or r[case['tag']] is tgt), info=f'got {r} want {want}')
+
+    mcases = [dict(tgt=t, child=c, tag=tg, static=s_) for t in ('None', '0', 'empty_str', 'empty_list', 'False', 'zero_float',
+                                                                'node', '5', 'x', 'list1')
+              for c in ('none', 'empty', 'tags') for tg in (None, 'T') for s_ in (False, True)]
     bools = (False, True)
+    tcases = []
+    for tl in (0, 1, 2, 3):
+        for t0 in range(0, min(tl, 1) + 1):
+            for qmin in (0, 1, 2):
+                for qmax in (qmin, qmin + 1, 3, None):
+                    if qmax is not None and qmax < qmin:
+                        continue
+                    for g in bools:
+                        for tag in (None, 'T'):
+                            for st_ in bools:
+                                tcases.append(dict(tl=tl, t0=t0, qmin=qmin, qmax=qmax, greedy=g, tag=tag, static=st_))
+    seen_, tc2 = set(), []
+    for c in tcases:
+        k_ = tuple(sorted(c.items(), key=lambda kv: kv[0]))
+        if str(k_) not in seen_:
+            seen_.add(str(k_))
+            tc2.append(c)
+    tcases = tc2
     qcases = [dict(greedy=g, tag=t, static=s_, sublist=sl, unbounded=u, partial=False)
               for g in bools for t in (None, 'T') for s_ in bools for sl in bools for u in bools]
     return [
         Fragment('match:_match__inside_list_quantifier', prop, 'quantifier', qcases, run_quantifier, min_obligations=2,
                  native=('k_match', 'replay_match'),
                  notes='loop invariants: tag stack depth and saved cursor; tag collections opaque; callees under contracts'),
+        Fragment('match:_match__inside_list_quantifier', prop, 'quantifier.tags', tcases, run_quantifier_tags, min_obligations=2,
+                 native=('k_match', 'replay_match'), max_paths=200000,
+                 notes='tag collections as real lists; bounds 0..3 / unbounded, target length 0..3, single-element '
+                       'quantified pattern; every outcome of every element and rest attempt forked; callees as recording stubs'),
+        Fragment('match:MMAYBE._match', prop, 'maybe', mcases, run_maybe, min_obligations=1, native=('k_match', 'replay_match'),
+                 notes='target kinds x outcome of the sub-pattern x pattern tag x static tags; match function of p as a '
+                       'recording stub'),
         Fragment('match:_match__inside_list', prop, 'inside_list', [dict(allow_partial=a) for a in (False, True)],
                  run_inside_list, min_obligations=3, native=('k_match', 'replay_match'),
                  notes='loop invariant over the pattern cursor; callees under assumed contracts (result kinds, cursor '
@@ -344,3 +527,61 @@ def replay_match(payload):
     if f:
         return {'reproduced': True, 'failing_input': f[0]}
     return {'reproduced': False, 'note': f'no new failing input among {r.get("evaluations")} match cases'}
+
+
+def options_structural(rep, prop='C17'):
+    """the `ctx` option of the public entry points reaches the matcher: every `_MatchState(...)` constructed in
+    M_Pattern.match / match / search receives the function's own `ctx` parameter as second argument (or ctx=ctx), the
+    parameter is not reassigned before, and `_MatchState.__init__` stores it (self.ctx = ctx) and gives it no default that
+    a call site could silently fall back to.  sub()/subn() are built on search() and pass their options through."""
+    import ast
+    from pyvc import frontend
+    sites = 0
+    for ident in ('match:M_Pattern.match', 'match:match', 'match:search'):
+        try:
+            loc = frontend.locate(ident)
+        except Exception as e:
+            rep.undecided(f'{prop}.options.ctx_reaches_matcher.{ident.split(":")[1]}', f'cannot locate {ident}: {e}')
+            continue
+
+        class _S:
+            name = 'ctx option reaches the match state (structural)'
+            notes = ''
+        rep.function(loc, _S)
+        fn = loc.node
+        probs = []
+        params = [a.arg for a in fn.args.args + fn.args.kwonlyargs]
+        if 'ctx' not in params:
+            probs.append('no `ctx` parameter')
+        n_here = 0
+        for n in ast.walk(fn):
+            if isinstance(n, ast.Call) and isinstance(n.func, ast.Name) and n.func.id == '_MatchState':
+                n_here += 1
+                second = n.args[1] if len(n.args) > 1 else next((k.value for k in n.keywords if k.arg == 'ctx'), None)
+                if not (isinstance(second, ast.Name) and second.id == 'ctx'):
+                    probs.append(f'line {n.lineno}: _MatchState(...) is not given the caller\'s ctx')
+            if isinstance(n, (ast.Assign, ast.AugAssign, ast.NamedExpr)):
+                for t in ast.walk(n.targets[0] if isinstance(n, ast.Assign) else n.target):
+                    if isinstance(t, ast.Name) and t.id == 'ctx' and isinstance(t.ctx, ast.Store):
+                        probs.append(f'line {n.lineno}: ctx is reassigned')
+        if not n_here:
+            probs.append('constructs no _MatchState (anchor changed?)')
+        sites += n_here
+        name = f'{prop}.options.ctx_reaches_matcher.{ident.split(":")[1]}'
+        rep.other('structural', name, not probs, detail='; '.join(probs[:3]) or f'{n_here} match state(s) constructed with the ctx option',
+                  key=name, replay={'function': ident, 'problems': probs, 'verifier_output': 'syntactic data-flow check'})
+    loc = frontend.locate('match:_MatchState.__init__')
+    fn = loc.node
+    probs = []
+    names = [a.arg for a in fn.args.args]
+    if names[:3] != ['self', 'is_FST', 'ctx']:
+        probs.append(f'signature is {names}')
+    if fn.args.defaults:
+        probs.append('a parameter of _MatchState.__init__ has a default: a call site that drops the option still runs')
+    if not any(isinstance(n, ast.Assign) and ast.unparse(n) == 'self.ctx = ctx' for n in fn.body):
+        probs.append('self.ctx = ctx not found')
+    name = f'{prop}.options.ctx_reaches_matcher._MatchState.__init__'
+    rep.other('structural', name, not probs, detail='; '.join(probs) or 'stores ctx, no defaults', key=name,
+              replay={'function': 'match:_MatchState.__init__', 'problems': probs, 'verifier_output': 'syntactic check'})
+    if sites < 3:
+        rep.checker_error(f'{prop}.options: only {sites} _MatchState constructions found in the entry points')
